@@ -1599,7 +1599,10 @@ class TaskPool:
             # can't be complete
             return False
 
-        if itask.identity == self.stop_task_id:
+        if (
+            itask.identity == self.stop_task_id
+            and itask.state(TASK_STATUS_SUCCEEDED)
+        ):
             self.stop_task_finished = True
 
         if cylc.flow.flags.cylc7_back_compat:
